@@ -107,6 +107,13 @@ class C02(CheckBase):
             if len(m.keys) < self.max_keys:
                 for sub in ("none", "S0", "E1", "S0E1", "S1", "E0", "P1T1", "W0", "S0E1W0", "E2", "Eff"):
                     acts.append(("copy", i, sub))
+                # the protecting value first, the weakening one last in ONE template (a check that reads the first entry while the store applies the last)
+                if k.sens:
+                    acts.append(("copy", i, "S1S0"))
+                if k.unextr:
+                    acts.append(("copy", i, "E0E1"))
+                if k.wwt:
+                    acts.append(("copy", i, "W1W0"))
                 if F.klass(k.kind) == C.CKO_SECRET_KEY:
                     for mm in ("base-and-data", "data-and-base"):
                         for sub in ("none", "S0E1"):
@@ -117,7 +124,8 @@ class C02(CheckBase):
                 acts.append(("concat-keys", 1, 0, sub))
         return acts
 
-    SUBS = {"E2": [(C.CKA_EXTRACTABLE, b"\x02")], "Eff": [(C.CKA_EXTRACTABLE, b"\xff")], "none": [], "S0": [(C.CKA_SENSITIVE, False)], "E1": [(C.CKA_EXTRACTABLE, True)], "S0E1": [(C.CKA_SENSITIVE, False), (C.CKA_EXTRACTABLE, True)],
+    SUBS = {"S1S0": [(C.CKA_SENSITIVE, True), (C.CKA_SENSITIVE, False)], "E0E1": [(C.CKA_EXTRACTABLE, False), (C.CKA_EXTRACTABLE, True)],
+            "W1W0": [(C.CKA_WRAP_WITH_TRUSTED, True), (C.CKA_WRAP_WITH_TRUSTED, False)], "E2": [(C.CKA_EXTRACTABLE, b"\x02")], "Eff": [(C.CKA_EXTRACTABLE, b"\xff")], "none": [], "S0": [(C.CKA_SENSITIVE, False)], "E1": [(C.CKA_EXTRACTABLE, True)], "S0E1": [(C.CKA_SENSITIVE, False), (C.CKA_EXTRACTABLE, True)],
             "S1": [(C.CKA_SENSITIVE, True)], "E0": [(C.CKA_EXTRACTABLE, False)], "P1T1": [(C.CKA_PRIVATE, True), (C.CKA_TOKEN, True)],
             "W0": [(C.CKA_WRAP_WITH_TRUSTED, False)], "S0E1W0": [(C.CKA_SENSITIVE, False), (C.CKA_EXTRACTABLE, True), (C.CKA_WRAP_WITH_TRUSTED, False)]}
 
